@@ -5,8 +5,7 @@ CONSTANTS
   Limits <- MCLimits
   HBMode = "off"
   Table = "GSUB"
-  MaxL = 2
-  TwoSubs = TRUE
+  Shapes = {"2x1", "1x2"}
 INIT MInit
 NEXT RNext
 CONSTRAINTS Bounded NoStuckLig GenEmit Stat
